@@ -126,11 +126,17 @@ def compare_case(P, case, impl_lines, crash, model_lines):
             divs.append(Div("crash", case, n - 1, "<crash after last op>", "", "", [], crash))
     # property-level oracle over the whole case (e.g. split-invariance, reset-like-new)
     cc = getattr(P, "check_case", None)
-    if cc is not None and not divs:
-        for (kind, idx, detail) in cc(case, impl_lines, model_lines):
+    if cc is not None:
+        # evaluated even when the correspondence already broke on this case: a broken correspondence is
+        # not by itself a violation, a failing input for the property is (and is reported first)
+        try:
+            found = cc(case, impl_lines, model_lines)
+        except Exception as e:      # truncated output after a crash etc.
+            found = []
+        for (kind, idx, detail) in found:
             idx = min(idx, n - 1)
             m, s, tags, _ = parse_model_line(model_lines[idx]) if idx < len(model_lines) else ("", "", [], [])
-            divs.append(Div(kind, case, idx, impl_lines[idx] if idx < len(impl_lines) else "", m, s, tags, detail))
+            divs.insert(0, Div(kind, case, idx, impl_lines[idx] if idx < len(impl_lines) else "", m, s, tags, detail))
             break
     return divs, alltags, cov
 
@@ -317,7 +323,7 @@ def main():
                 if len(samples) < 3 and len(c["lines"]) > 1 and len(c["lines"]) < 40:
                     samples.append({"ops": c["lines"][:12], "impl": il[:12]})
                 div_found += divs
-            if len(div_found) > 20:
+            if len([d for d in div_found if d.kind in ("spec", "crash")]) > 20 or len(div_found) > 400:
                 break
     # ---- 5: classify
     known = C.load_known()
@@ -327,6 +333,11 @@ def main():
             known_tags[f["tag"]] = f
     reported = 0
     seen_sig = set()
+    # concrete failures of the property first, broken correspondence last
+    div_found.sort(key=lambda d: {"spec": 0, "crash": 1}.get(d.kind, 2))
+    if any(d.kind in ("spec", "crash") for d in div_found):
+        # the search found failing inputs: the correspondence breaks are explained by them
+        div_found = [d for d in div_found if d.kind in ("spec", "crash")]
     for d in div_found:
         if reported >= 5:
             break
@@ -339,7 +350,8 @@ def main():
             continue
         seen_sig.add(sig)
         try:
-            d = shrink(P, harness, d, env=env)
+            if not d.case.get("noshrink"):
+                d = shrink(P, harness, d, env=env)
         except Exception as e:
             log("shrink failed: %r" % e)
         if d.kind in ("spec", "crash"):
